@@ -85,6 +85,15 @@ def run_unit(unit, rng, ctx):
     com_cart = (com - com[:1]) @ m
     Dcom = float(np.sum(com_cart[-1] ** 2)) * ANG**2 / (2 * dim * T * dt)
 
+    # history: cached metric methods share intermediate arrays; call a random selection first, in random order
+    warm = [str(x) for x in rng.permutation(['attempt_frequency', 'speed', 'vibration_amplitude', 'amplitudes', 'haven_ratio', 'tracer_diffusivity', 'particle_density'])[: int(rng.integers(0, 5))]]
+    for q in warm:
+        try:
+            getattr(M, q)(dimensions=dim) if q in ('haven_ratio', 'tracer_diffusivity') else getattr(M, q)()
+        except ZeroDivisionError:
+            pass
+    what += f' after {warm}' if warm else ''
+    ctx.count('cases_with_warm_up_calls', bool(warm))
     ctx.check(close(M.particle_density(), dens), f'{what}: particle_density {float(M.particle_density())!r} != N/V {dens!r}', wit)
     ctx.check(close(M.mol_per_liter(), dens * 1e-3 / NA), f'{what}: mol_per_liter {float(M.mol_per_liter())!r} != {dens * 1e-3 / NA!r}', wit)
     ctx.check(close(M.tracer_diffusivity(dimensions=dim), D), f'{what}: tracer_diffusivity {float(M.tracer_diffusivity(dimensions=dim))!r} != {D!r}', wit)
@@ -105,6 +114,9 @@ def run_unit(unit, rng, ctx):
         a0 = np.asarray(TrajectoryMetrics(traj.filter(names[0])).amplitudes()) if names.count(names[0]) == 1 else None
         if a0 is not None:
             ctx.check(close(a0.sum(), final[0], 1e-8), f'{what}: amplitudes of atom 0 sum to {a0.sum()!r}, its final distance is {final[0]!r}', wit)
+    dist_truth = np.linalg.norm(cart, axis=2).T
+    speed_truth = np.diff(dist_truth, prepend=0)
+    ctx.check(np.allclose(np.asarray(M.speed()), speed_truth, rtol=1e-9, atol=1e-9 * max(1.0, float(np.abs(speed_truth).max()))), f'{what}: speed() is not the change of the distance from the starting position', wit)
     vib = float(M.vibration_amplitude())
     ctx.check(close(vib, float(np.std(amps))), f'{what}: vibration_amplitude {vib!r} != std of the amplitudes {float(np.std(amps))!r}', wit)
     freq, freq_std = (float(x) for x in M.attempt_frequency())
